@@ -7,6 +7,13 @@ Specification: specs/ScanGeom.tla (three machines, see its header)
          (position, omega / sin / cos, dty) belongs to walk i (distinct elements); scalar arguments: every
          third walk.  omega is passed as the specification's angle -1 / 0 / +1 whole turns.  Steps 1/10 and
          3/7 (not binary fractions: no float exact; an exact half-integer may round to either neighbour).
+         REPEAT LAW (FunctionOfCurrentValues: every operation is a function of the current VALUES of its arguments,
+         not of earlier calls or of the identity of an array): the machine has the caller's actions set_omega
+         (omega changed IN PLACE to the next angle: same array object, other contents; sin / cos likewise) and repeat
+         (the argument objects get the values of the last call back, in place, and the function is called again)
+         in ScanGeom_walk_rep*.cfg and in the simulated walks; and the array arguments (position, omega, sin, cos,
+         dty, dtyi) of ALL groups of one size are the same objects for the whole run, rewritten in place from call
+         to call, results written back into them.  A saved violation carries the group that used the objects before.
   RECON  case oracle for the filtered back-projection -> mode A: predicted pixel, shift, pad, grid,
          sinogram rows, get_voxel_idx windows, the exact (sx, sy, y0) a fit of the in-beam dty has to return
          (fit_sine_wave / sx_sy_y0_from_dty_omega); the real FBP is run as its consumers run it.  With ystep
@@ -26,6 +33,12 @@ independence 1..16 and None, ROI-mask independence (incl. the empty mask), for f
 (REL32), and - harness-side families, the model does not mention interpolant or filter - the relational
 clauses for interpolation linear / nearest / cubic x filter ramp / shepp-logan / cosine / hamming / hann /
 None, projection_shifts None, output_size None; GrainSinogram.recon(projections=subset).
+The repeat law on the FBP (harness-side): every case runs run_iradon a third time at the end (bit-identical to the
+first, one worker), every option combination is called again after the worker / ROI runs and once more after the
+other combinations at the same padded size, the consumers' hamming / linear call after all of them; the other
+description of the scan is written IN PLACE into the omega array of the first sinogram (then restored in place and the
+first sinogram asked again), the in-beam dty of every description compared with y0 - sx sin - sy cos of the current
+contents computed here.
 Recorded, not judged (outside the statement): integer sinograms (raise), workers = 0 / -1,
 fit_sample_position_from_recon, peak distance with nearest / cubic interpolation.
 """
@@ -44,6 +57,7 @@ FIT_REL = 1e-6        # fit_sine_wave: an iterative least-squares fit of exact d
 INTERPS = ["linear", "nearest", "cubic"]
 FILTERS = ["ramp", "shepp-logan", "cosine", "hamming", "hann", None]
 
+REPEAT_ACTIONS = ["set_omega", "repeat"]        # WRepeat = TRUE: ScanGeom_walk_rep*.cfg, ScanGeom_walk_sim.cfg
 WALK_ACTIONS = ["sample_to_lab_sincos", "sample_to_lab", "lab_to_sample_sincos", "lab_to_sample",
                 "sample_to_step", "step_to_sample", "step_to_recon", "recon_to_step", "sample_to_recon",
                 "recon_to_sample", "lab_to_step", "step_to_lab", "lab_to_recon", "recon_to_lab",
@@ -133,6 +147,23 @@ def dyadic(x):
     return d & (d - 1) == 0
 
 
+_WALK_BUFFERS = {}
+
+
+def _walk_buffers(K):
+    """the array arguments of every walk group of K elements: one object per role for the whole run"""
+    if K not in _WALK_BUFFERS:
+        b = {k: np.zeros(K) for k in ("x", "y", "om", "sn", "cs", "dty")}
+        b["dtyi"] = np.zeros(K, dtype=np.int64)
+        _WALK_BUFFERS[K] = b
+    return _WALK_BUFFERS[K]
+
+
+def _om0(rec):
+    """the angle a walk starts with (cfg.om of an emitted walk is the angle it ends with)"""
+    return rec["cfg"].get("om0", rec["cfg"]["om"])
+
+
 def replay_walk(recs, vector=False, turns=None):
     """Execute TLC behaviours with the real functions.  Returns a list of failure strings.
     recs: one record (scalar arguments), or - vector=True - a list of records that differ only in the angle
@@ -156,20 +187,47 @@ def replay_walk(recs, vector=False, turns=None):
     def A(vals):
         return np.array(vals, dtype=float) if vector else vals[0]
 
-    angs = [r["cfg"]["om"] for r in recs]
-    sn, cs = A([a[1] / float(a[2]) for a in angs]), A([a[0] / float(a[2]) for a in angs])
-    om = A([math.degrees(math.atan2(a[1], a[0])) + 360.0 * t for a, t in zip(angs, turns)])
+    B = _walk_buffers(K) if vector else None
+
+    def A(vals, key):
+        """scalar walks: the number.  Array walks: the ONE array object of this role for every group of K elements,
+        rewritten in place (the functions see the same objects again and again, only the contents differ)"""
+        if not vector:
+            return vals[0]
+        B[key][:] = vals
+        return B[key]
+
+    def put(key, v):
+        """a result becomes the argument of the next call: written into the persistent object of its role"""
+        if not vector:
+            return v
+        v = np.asarray(v)
+        if v.shape not in ((K,), (), (1,)):
+            raise RealCodeError("result of shape %r for arguments of %d elements" % (v.shape, K))
+        if key == "dtyi" and not np.issubdtype(v.dtype, np.integer):
+            return v                      # reported below (dtype check); not forced into the integer buffer
+        B[key][:] = v
+        return B[key]
+
+    def angle_args(angs):
+        return (A([a[1] / float(a[2]) for a in angs], "sn"), A([a[0] / float(a[2]) for a in angs], "cs"),
+                A([math.degrees(math.atan2(a[1], a[0])) + 360.0 * t for a, t in zip(angs, turns)], "om"))
+
+    angs = [_om0(r) for r in recs]
+    sn, cs, om = angle_args(angs)
     y0, ystep, ymin = fl(c["y0"]), fl(c["ystep"]), fl(c["ymin"])
     qy0, qystep, qymin = q(c["y0"]), q(c["ystep"]), q(c["ymin"])
     shape = tuple(c["shape"])
     frame = c["f0"]
-    x = A([float(q(r["cfg"]["start"][0])) for r in recs])
-    y = A([float(q(r["cfg"]["start"][1])) for r in recs])
-    dty = A([fl(c["dty0"])] * K)
+    x = A([float(q(r["cfg"]["start"][0])) for r in recs], "x")
+    y = A([float(q(r["cfg"]["start"][1])) for r in recs], "y")
+    dty = A([fl(c["dty0"])] * K, "dty")
     dtyi = None
     # all floats so far are exactly the specification's rationals (lengths are multiples of ystep / 2)
     exact = [(a[2] == 1) and dyadic(c["ystep"]) for a in angs]
-    dcs, ties = [r["cfg"]["dc"] for r in recs], [r["cfg"]["tie"] for r in recs]
+    # cfg.om / dc / tie of an emitted walk are the final ones (they move with set_omega): start from om0 / dc0 / tie0
+    dcs = [r["cfg"].get("dc0", r["cfg"]["dc"]) for r in recs]
+    ties = [r["cfg"].get("tie0", r["cfg"]["tie"]) for r in recs]
     fails = []
     pscale = max(abs(y0), abs(ymin), 1.0)
 
@@ -228,21 +286,18 @@ def replay_walk(recs, vector=False, turns=None):
 
     # u = (dty_in_beam - ymin)/ystep of the physical point, exact
     P0 = (q(c["P0"][0]), q(c["P0"][1]))
-    u_exact = [(qy0 - P0[0] * F(a[1], a[2]) - P0[1] * F(a[0], a[2]) - qymin) / qystep for a in angs]
+
+    def u_of(angs):
+        return [(qy0 - P0[0] * F(a[1], a[2]) - P0[1] * F(a[0], a[2]) - qymin) / qystep for a in angs]
+    u_exact = u_of(angs)
     seen_frames = set()
     diverged = False
     if frame != "lab":
         check_masks("start", frame, x, y, u_exact)
         seen_frames.add(frame)
 
-    for k, name in enumerate(names):
-        sts = [r["op"][k] for r in recs]
-        st = sts[0]
-        tag = "step %d %s" % (k + 1, name)
-        pxs, pys = [q(t["p"][0]) for t in sts], [q(t["p"][1]) for t in sts]
-        eds = [q(t["d"]) for t in sts]
-        prev = (np.max(np.abs(x)), np.max(np.abs(y)))
-        inexact_after = name in ROTATING_DEG
+    def apply(name, x, y, dty, dtyi, tag, eds, prev):
+        """one function of geometry.py on the current argument objects -> (x, y, dty, dtyi)"""
         # ---- frame conversions
         if name == "sample_to_lab_sincos":
             x, y = call(g.sample_to_lab_sincos, x, y, y0, dty, sn, cs)
@@ -299,6 +354,49 @@ def replay_walk(recs, vector=False, turns=None):
             dty = call(g.dtyi_to_dty, dtyi, ystep, ymin)
         else:
             raise common.MachineryError("unknown action %r in walk" % name)
+        return x, y, dty, dtyi
+
+    def snap(v):
+        return None if v is None else (np.array(v, copy=True) if vector else v)
+
+    last = None                  # (function name, values of x, y, dty, dtyi at its call)
+    for k, name in enumerate(names):
+        sts = [r["op"][k] for r in recs]
+        st = sts[0]
+        tag = "step %d %s" % (k + 1, name)
+        pxs, pys = [q(t["p"][0]) for t in sts], [q(t["p"][1]) for t in sts]
+        eds = [q(t["d"]) for t in sts]
+        prev = (np.max(np.abs(x)), np.max(np.abs(y)))
+        if name == "set_omega":
+            # the caller changes the angle in place: the SAME objects (array walks) with other contents
+            angs = [t["om"] for t in sts]
+            sn, cs, om = angle_args(angs)
+            exact = [e and a[2] == 1 for e, a in zip(exact, angs)]
+            dcs, ties = [t["dc"] for t in sts], [t["tie"] for t in sts]
+            u_exact = u_of(angs)
+            dtyi = None
+            seen_frames = set()
+            rname = name
+        elif name == "repeat":
+            # the argument objects get the values of the last call back (in place) and the function is called again
+            if last is None:
+                raise common.MachineryError("repeat without a call before it")
+            rname, vx, vy, vd, vi = last
+            tag = "step %d repeat of %s" % (k + 1, rname)
+            x, y, dty = put("x", vx), put("y", vy), put("dty", vd)
+            dtyi = None if vi is None else put("dtyi", vi)
+            prev = (np.max(np.abs(x)), np.max(np.abs(y)))
+            x, y, dty, dtyi = apply(rname, x, y, dty, dtyi, tag, eds, prev)
+            x, y, dty = put("x", x), put("y", y), put("dty", dty)
+        else:
+            rname = name
+            last = (name, snap(x), snap(y), snap(dty), snap(dtyi))
+            x, y, dty, dtyi = apply(name, x, y, dty, dtyi, tag, eds, prev)
+            x, y, dty = put("x", x), put("y", y), put("dty", dty)
+        raw_dtyi = dtyi
+        if dtyi is not None:
+            dtyi = put("dtyi", dtyi)
+        inexact_after = rname in ROTATING_DEG
         if inexact_after:
             exact = [False] * K
         frame = st["f"]
@@ -328,8 +426,8 @@ def replay_walk(recs, vector=False, turns=None):
                     fails.append("%s: dtyi%s = %r, specification %d (tie=%s exact=%s)" %
                                  (tag, "[%d]" % i if vector else "", v, sts[i]["i"], ties[i], exact[i]))
                     break
-            if not np.issubdtype(np.asarray(dtyi).dtype, np.integer):
-                fails.append("%s: dtyi has dtype %s, not an integer type" % (tag, np.asarray(dtyi).dtype))
+            if not np.issubdtype(np.asarray(raw_dtyi).dtype, np.integer):
+                fails.append("%s: dtyi has dtype %s, not an integer type" % (tag, np.asarray(raw_dtyi).dtype))
         # ---- observations at this state
         if frame != "lab" and frame not in seen_frames:
             seen_frames.add(frame)
@@ -353,7 +451,7 @@ def replay_walk(recs, vector=False, turns=None):
 
 def walk_key(rec):
     c = rec["cfg"]
-    return (tuple(c["om"]), tuple(map(tuple, c["P0"])), tuple(c["y0"]), tuple(c["ystep"]), tuple(c["shape"]),
+    return (tuple(_om0(rec)), tuple(map(tuple, c["P0"])), tuple(c["y0"]), tuple(c["ystep"]), tuple(c["shape"]),
             c["f0"], tuple(c["dty0"]), tuple(c["ymin"]), tuple(s["a"] for s in rec["op"]))
 
 
@@ -369,12 +467,16 @@ def group_key(rec):
             c["f0"], tuple(c["dty0"]), tuple(c["ymin"]), tuple(s["a"] for s in rec["op"]))
 
 
-def _walk_violation(chk, recs, vec, turns, fails):
+_LAST_GROUP = {}
+
+
+def _walk_violation(chk, recs, vec, turns, fails, before=None):
     rec = recs[0]
     chk.violation("walk %s from %s at omega=%s%s: %s" % ("->".join(s["a"] for s in rec["op"]), rec["cfg"]["f0"],
-                                                         [r["cfg"]["om"] for r in recs] if vec else rec["cfg"]["om"],
+                                                         [_om0(r) for r in recs] if vec else _om0(rec),
                                                          " (+%s turns)" % turns if any(turns) else "", fails[0]),
-                  {"kind": "walk", "vector": vec, "recs": recs, "turns": turns, "failures": fails})
+                  {"kind": "walk", "vector": vec, "recs": recs, "turns": turns, "failures": fails,
+                   "before": None if before is None else {"recs": before[0], "turns": before[1]}})
 
 
 def judge_walk(chk, rec, idx):
@@ -398,7 +500,9 @@ def judge_group(chk, recs, idx):
     except RealCodeError as e:
         fails = [str(e)]
     if fails:
-        _walk_violation(chk, recs, True, turns, fails)
+        # the argument objects are shared by the groups of one size: the group that used them before is part of the case
+        _walk_violation(chk, recs, True, turns, fails, before=_LAST_GROUP.get(len(recs)))
+    _LAST_GROUP[len(recs)] = (recs, turns)
     return fails
 
 
@@ -798,15 +902,42 @@ def recon_case(rec, level=0, ordinal=None):
     # -- other descriptions of the same scan: whole turns added to omega, a 2 degree scan run backwards, an offset start
     variant = (c["pq"][0] + c["pq"][1] + c["offh"] + ny + c["scan"] // 180) % 3
     rngv = np.random.default_rng((c["pq"][0] * 131 + c["pq"][1] * 17 + c["offh"] * 7 + ny) & 0xffff)
+    # REPEAT LAW (ScanGeom.tla): where the other description has as many projections it is written IN PLACE into the
+    # omega array the first sinogram was built from (omega += ...): the same object, other contents
+    om_first = omega.copy()
+
+    def dty_expected(om_):           # the in-beam dty of the point, computed here from the current contents
+        return y0 - sx * np.sin(np.radians(om_)) - sy * np.cos(np.radians(om_))
+
+    def dty_follows(what, got, om_):
+        if np.shape(got) != np.shape(om_) or not np.abs(np.asarray(got) - dty_expected(om_)).max() <= 1e-9 * big + 1e-12:
+            fails.append("dty_values_grain_in_beam for %s differs from y0 - sx sin(omega) - sy cos(omega) of the CURRENT "
+                         "contents of omega by %.3g" % (what, float(np.abs(np.asarray(got) - dty_expected(om_)).max())
+                                                        if np.shape(got) == np.shape(om_) else float("nan")))
+    dty_follows("the scan 0, 1, ...", dty, omega)
     if variant == 0:
-        om2, vname = omega + 360.0 * rngv.integers(-1, 2, len(omega)), "omega + 360 k, k in {-1, 0, 1} per projection"
+        omega += 360.0 * rngv.integers(-1, 2, len(omega))
+        om2, vname = omega, "omega + 360 k, k in {-1, 0, 1} per projection (in place)"
     elif variant == 1:
         om2, vname = np.arange(scan - 1.0, -0.5, -2.0), "omega = scan-1, scan-3, ... (2 degree steps, decreasing)"
     else:
-        om2, vname = np.arange(0, scan, 1.0) + 0.37, "omega = 0.37, 1.37, ..."
-    sino2, _, _, _, nout2 = point_sino(c, om2)
+        omega += 0.37
+        om2, vname = omega, "omega = 0.37, 1.37, ... (in place)"
+    sino2, _, dty2, _, nout2 = point_sino(c, om2)
+    dty_follows("the scan described as " + vname, dty2, om2)
     rec2 = call(ri.run_iradon, sino2, om2, pad=usepad, shift=shift)
     d2, wh2, _ = peak_distance(rec2, pred)
+    # ... and back (in place again): the same call as the first one, after other calls
+    omega[:] = om_first
+    sino3, _, dty3, _, _ = point_sino(c, omega)
+    if not (np.array_equal(sino3, sino) and np.array_equal(np.asarray(dty3), np.asarray(dty))):
+        fails.append("the sinogram / in-beam dty of the scan 0, 1, ... asked again (omega array restored in place after %s) "
+                     "differs from the first answer" % vname)
+    recon3 = call(ri.run_iradon, sino, omega, pad=usepad, shift=shift)
+    if recon3.shape != recon.shape or not np.array_equal(recon3, recon):
+        fails.append("run_iradon called again with the same sinogram, angles, pad and shift (third FBP of this size in the "
+                     "process) differs from its first result by %.3g (max %.3g)" %
+                     (_maxdiff(recon3, recon) if recon3.shape == recon.shape else float("nan"), float(np.abs(recon).max())))
     info["variant"] = variant
     info["dist"] = max(dist, d2)
     if nout2 or not d2 <= FBP_PX:
@@ -870,6 +1001,7 @@ def _options_run(tag, sino, s2, omega, kw, rng, peak, rel, heavy):
                 fails.append("%s: ROI mask '%s' (workers=%d): inside differs from the full reconstruction by %.3g, "
                              "outside max %.3g (max of the reconstruction %.3g)" % (tag, nm, w, din, dout, s))
                 break
+    fails += _again(tag, base, sino, omega, kw, 1 if heavy else 2, "after the worker / ROI runs")
     r2 = call(ri.iradon, s2, theta=omega, workers=1, **kw)
     for (ca, cb) in (((2, -3),) if heavy else ((1, 1), (2, -3))):
         rc = call(ri.iradon, (ca * sino + cb * s2).astype(sino.dtype), theta=omega, workers=1, **kw)
@@ -879,6 +1011,19 @@ def _options_run(tag, sino, s2, omega, kw, rng, peak, rel, heavy):
             fails.append("%s: not linear: R(%d a + %d b) differs from %d R(a) + %d R(b) by %.3g (scale %.3g)" %
                          (tag, ca, cb, ca, cb, d, sc_))
     return fails, base
+
+
+def _again(tag, first, sino, omega, kw, times, when):
+    """REPEAT LAW for the FBP: the same call (one worker: one summation order) again gives the first result, bit for bit"""
+    out = []
+    for t in range(times):
+        rb = call(M.roi_iradon.iradon, sino, theta=omega, workers=1, **kw)
+        if rb.shape != first.shape or not np.array_equal(rb, first):
+            out.append("%s: the same call again (%s, repeat %d) differs from its first result by %.3g (max %.3g): the FBP is "
+                       "not a function of its arguments alone" % (tag, when, t + 1, _maxdiff(rb, first) if rb.shape == first.shape
+                                                                  else float("nan"), float(np.abs(first).max())))
+            break
+    return out
 
 
 def _recon_extras(rec, sino, omega, dty, shift, usepad, recon, pred, where, info):
@@ -943,6 +1088,7 @@ def _recon_extras(rec, sino, omega, dty, shift, usepad, recon, pred, where, info
     combos = [(INTERPS[j % 3], FILTERS[(j // 3) % 6], True, True),             # ordinals 0..17: every pair once
               (INTERPS[(j + 1) % 3], FILTERS[(j // 3 + 3) % 6], True, True),
               ("linear", FILTERS[(j + 1) % 6], j % 2 == 0, j % 4 >= 2)]
+    firsts = []                  # (tag, sinogram, angles, options, first result) of every option combination
     for interp, filt, with_shift, with_size in combos:
         kw = dict(filter_name=filt, interpolation=interp)
         if with_shift:
@@ -952,11 +1098,13 @@ def _recon_extras(rec, sino, omega, dty, shift, usepad, recon, pred, where, info
         tag = "iradon(%s)" % ", ".join("%s=%s" % (k, "<shift>" if k == "projection_shifts" else repr(v)) for k, v in sorted(kw.items()))
         if interp == "linear":
             f2, base = _options_run(tag, sino, s2, omega, kw, rng, where if (with_shift and with_size) else None, REL, False)
+            firsts.append((tag, sino, omega, dict(kw), base))
         else:
             # scipy's interp1d is slow: every third projection (the relational clauses do not need the whole scan)
             kw["projection_shifts"] = shifts[:, ::3]
             f2, base = _options_run(tag + " on every third projection", sino[:, ::3], s2[:, ::3], omega[::3], kw, rng,
                                     where, REL, heavy=(interp == "cubic"))
+            firsts.append((tag, sino[:, ::3], omega[::3], dict(kw), base))
         fails += f2
         runs.append((interp, str(filt), with_shift, with_size))
         if not with_shift:
@@ -971,6 +1119,14 @@ def _recon_extras(rec, sino, omega, dty, shift, usepad, recon, pred, where, info
                     fails.append("%s peaks at %r, %.3f px from the predicted (%.3f, %.3f)" % (tag, wh, dd, pred[0], pred[1]))
             else:
                 info["worst_nonlinear_interp_px"] = max(info.get("worst_nonlinear_interp_px", 0.0), dd)
+    # -- REPEAT LAW: every option combination once more after the others (another filter / interpolant at the same padded
+    #    size was used in between), and the consumers' own combination (hamming, linear) after all of them
+    for tag, sn_, om_, kw_, base in firsts:
+        fails += _again(tag, base, sn_, om_, kw_, 1, "after the other option combinations")
+    fails += _again("iradon as run_iradon calls it", direct, sino, omega,
+                    dict(mask=None, output_size=ny + usepad, projection_shifts=np.full(sino.shape, shift),
+                         filter_name="hamming", interpolation="linear"), 1, "after the option combinations")
+    info["fbp_repeats"] = info.get("fbp_repeats", 0) + len(firsts) + 1
     # -- float32 sinograms (the reconstruction is float32: tolerance REL32); integer sinograms are not an input
     #    kind of the statement (the consumers build float sinograms): what happens is recorded, not judged
     sino32, s232 = sino.astype(np.float32), s2.astype(np.float32)
@@ -1113,7 +1269,7 @@ def run_recon_cases(chk, recs, levels, procs=8):
     if results is None:
         results = [_pool_recon(it) for it in items]
     agg = {"inexact": 0, "pad_other_side": 0, "fit_err": 0.0, "variants": [0, 0, 0], "option_runs": {}, "float32": 0,
-           "projection_subsets": 0, "worst_nonlinear_interp_px": 0.0, "blob_none": 0, "blob_worst_steps": 0.0, "blob": 0,
+           "projection_subsets": 0, "fbp_repeats": 0, "worst_nonlinear_interp_px": 0.0, "blob_none": 0, "blob_worst_steps": 0.0, "blob": 0,
            "obs": {}}
     for (rec, level, _), (fails, info) in zip(items, results):
         c = rec["cfg"]
@@ -1127,7 +1283,7 @@ def run_recon_cases(chk, recs, levels, procs=8):
             agg["variants"][info["variant"]] += 1
         for o in info.get("option_runs", []):
             agg["option_runs"]["/".join(map(str, o))] = agg["option_runs"].get("/".join(map(str, o)), 0) + 1
-        for k in ("float32", "projection_subsets"):
+        for k in ("float32", "projection_subsets", "fbp_repeats"):
             agg[k] += info.get(k, 0)
         agg["worst_nonlinear_interp_px"] = max(agg["worst_nonlinear_interp_px"], info.get("worst_nonlinear_interp_px", 0.0))
         if "blob_steps" in info:
@@ -1158,6 +1314,8 @@ def run_recon_cases(chk, recs, levels, procs=8):
 def _tlc(chk, label, cfg, actions=None, **kw):
     kw.setdefault("workers", int(os.environ.get("C19_TLC_WORKERS", "16")))      # development knob on a shared box
     kw.setdefault("timeout", 1500)
+    if os.environ.get("C19_TLC_HEAP"):                                           # development knob (box short of memory)
+        kw.setdefault("heap", os.environ["C19_TLC_HEAP"])
     res = common.run_tlc("ScanGeom", os.path.join(common.SPECS, cfg), coverage=True, **kw)
     if res.violated:
         # the specification is static: its invariants do not depend on the tree under test
@@ -1265,6 +1423,8 @@ def run(tier, replay=None):
         chk.notes["iradon_option_runs (interpolation/filter/shifts given/output_size given)"] = agg["option_runs"]
         chk.notes["float32_cases"] = agg["float32"]
         chk.notes["projection_subset_cases"] = agg["projection_subsets"]
+        chk.notes["fbp_option_combinations_called_again_after_the_others"] = agg["fbp_repeats"]
+        chk.notes["fbp_cases_called_again (run_iradon third call bit-identical, omega rewritten in place)"] = len(cases)
         chk.notes["observations"] = {
             "not judged": agg["obs"],
             "worst peak distance with nearest / cubic interpolation (px)": round(agg["worst_nonlinear_interp_px"], 3),
@@ -1274,12 +1434,18 @@ def run(tier, replay=None):
         # ---- WALK (mode B)
         walks = _tlc(chk, "ScanGeom walk depth 4 " + ("thorough" if thorough else "quick"),
                      "ScanGeom_walk_t.cfg" if thorough else "ScanGeom_walk_q.cfg", actions=WALK_ACTIONS)
+        # the same machine with the caller's actions: omega changed IN PLACE (set_omega), the last call again (repeat)
+        reps = _tlc(chk, "ScanGeom walk depth 4 with set_omega / repeat " + ("5 combos" if thorough else "2 combos"),
+                    "ScanGeom_walk_rep_t.cfg" if thorough else "ScanGeom_walk_rep.cfg", actions=WALK_ACTIONS + REPEAT_ACTIONS)
+        reps = [r for r in reps if any(s_["a"] in REPEAT_ACTIONS for s_ in r["op"])]      # the others are in `walks`
+        if not thorough:
+            reps = rnd.sample(reps, min(6000, len(reps)))
         nsim = 4000 if thorough else 800
         sim = _tlc(chk, "ScanGeom walk simulate depth 8", "ScanGeom_walk_sim.cfg", actions=None,
                    simulate=max(nsim // 16, 1), depth=9, seed_=common.seed())
         seen = set()
         allw = []
-        for rec in walks + sim:
+        for rec in walks + reps + sim:
             k = walk_key(rec)
             if k not in seen:
                 seen.add(k)
@@ -1287,11 +1453,14 @@ def run(tier, replay=None):
         t0 = time.time()
         groups = {}
         nscalar = ninexact = 0
+        nrep = {"set_omega": 0, "repeat": 0}
         for i, rec in enumerate(allw):
             chk.case(walk_key(rec), nontrivial=walk_nontrivial(rec))
             chk.traces += 1
             groups.setdefault(group_key(rec), []).append(rec)
             ninexact += not dyadic(rec["cfg"]["ystep"])
+            nrep["set_omega"] += any(s_["a"] == "set_omega" for s_ in rec["op"])
+            nrep["repeat"] += any(s_["a"] == "repeat" for s_ in rec["op"])
             if i % 3 == 0:
                 judge_walk(chk, rec, i // 3)
                 nscalar += 1
@@ -1306,6 +1475,11 @@ def run(tier, replay=None):
         chk.notes["walk_groups_with_array_arguments"] = len(groups)
         chk.notes["walk_groups_with_distinct_elements"] = ndistinct
         chk.notes["walks_step_not_a_binary_fraction"] = ninexact
+        chk.notes["walks_with_omega_changed_in_place"] = nrep["set_omega"]
+        chk.notes["walks_with_a_repeated_call"] = nrep["repeat"]
+        chk.notes["array_argument_objects"] = "one per role and group size for the whole run, rewritten in place"
+        if min(nrep.values()) == 0:
+            raise common.MachineryError("vacuity: no walk with set_omega / repeat")
         chk.notes["walk_replay_s"] = round(time.time() - t0, 1)
     except BaseException:
         for p in procs:
@@ -1356,6 +1530,11 @@ def do_replay(path):
         if kind == "walk":
             recs = case["recs"] if "recs" in case else case["rec"]
             vec = case.get("vector", False)
+            if vec and case.get("before"):
+                try:                         # the group that used the shared argument objects before this one
+                    replay_walk(case["before"]["recs"], vector=True, turns=case["before"]["turns"])
+                except RealCodeError:
+                    pass
             fails = replay_walk(recs if vec else (recs[0] if isinstance(recs, list) else recs), vector=vec,
                                 turns=case.get("turns"))
         elif kind == "recon":
